@@ -380,9 +380,9 @@ def handle (line : String) : String :=
         let accepted : List (String × Nat) := sc.ptrs.filterMap (fun (ptr, cid) =>
           if isAccepted (retOf obs cid) then (sc.calls.find? (·.id == cid)).map (fun d => (ptr, d.msgs.length)) else none)
         let c08 := holdsC08 mc sc.calls j obs && closedWhenFull mc.bs mc.bb sizeOf tev && detachedGetsPut tev && timerDetachOk tev &&
-          attemptedAll tev accepted && lingerOk mc.linger tev
+          attemptedAll tev accepted && lingerOk mc.linger tev && noAddAfterDetach tev
         let c07 := holdsC07 sc.calls j obs && putInsideSection tev
-        let c01 := holdsC01 mc sc.calls j obs && batchOnce tev && timerDetachOk tev
+        let c01 := holdsC01 mc sc.calls j obs && batchOnce tev && timerDetachOk tev && noAddAfterDetach tev
         let holds :=
           if prop == "c08" then c08 else if prop == "c07" then c07 else if prop == "c01" then c01
           else c08 && c07 && c01
